@@ -116,11 +116,33 @@ def _bad_input(r, w, task):
         return None
 
 
+def _strip_key(desc, key):
+    d = copy.deepcopy(desc)
+
+    def walk(x):
+        x.pop(key, None)
+        for c in U.children(x):
+            walk(c)
+    walk(d)
+    return d
+
+
 def _gen_neighbours(r, w):
     """0-2 colliding neighbour types, each with its own values (generation side)."""
     out = []
     if U.has_open(w['desc']):
         return out
+    if U.has_key(w['desc'], 'enc') and r.random() < 0.8:
+        # the same type with the library's own text encodings: the parent classes of T's character types
+        nd = _strip_key(w['desc'], 'enc')
+        try:
+            sch = U.build_schema(nd)
+            vals = [U.gen_value(r, nd, U.ValCfg(small=True)) for _ in w['values']]
+            for v in vals:
+                U.build_value(sch, nd, v)
+            out.append({'desc': nd, 'values': vals, 'how': 'plain-encoding'})
+        except Exception:
+            pass
     for _ in range(r.choice([0, 1, 1, 2])):
         mode = r.choice(['flip', 'flip', 'flip+swap', 'swap', 'rot', 'flip+rot'])
         nd = _neighbour_desc(r, w['desc'], mode)
@@ -240,7 +262,8 @@ def gen_plan(r, index, tier):
             at += r.choice([1, 1, 2, 3, 10, 50, 200, 1000])
             sw.append([at, r.randrange(8)])
         sched['switches'] = sw
-    return {'check': ID, 'workload': {'desc': desc, 'values': w['values'], 'open_types': w['open_types']},
+    return {'check': ID, 'workload': {'desc': desc, 'values': w['values'], 'open_types': w['open_types'],
+                                      'style': w.get('style')},
             'neighbours': neighbours, 'tasks': tasks, 'schedule': sched,
             'open_types_dict': (r.choice(['full', 'partial', 'partial', 'empty']) if (w['open_types'] and r.random() < 0.6) else None),
             'logging': (r.choice(['all', 'all', 'decoder', 'encoder', 'toggle']) if r.random() < 0.3 else False),
@@ -251,9 +274,14 @@ def gen_plan(r, index, tier):
 # contexts and task bodies
 
 class Ctx(object):
-    def __init__(self, wdesc, values, only=None):
+    def __init__(self, wdesc, values, only=None, style=None):
         self.desc = wdesc
-        self.schema = U.build_schema(wdesc)
+        prev = U.STYLE[0]
+        U.STYLE[0] = style
+        try:
+            self.schema = U.build_schema(wdesc)
+        finally:
+            U.STYLE[0] = prev
         # an isolated reference context holds only what its one task needs: building the other values
         # would already be "a history of other calls" on the schema (constraint objects see them)
         self.values = [U.build_value(self.schema, wdesc, v) if (only is None or i in only) else None
@@ -291,9 +319,10 @@ def _open_entries(desc):
 
 
 def _workloads(plan):
-    """[main workload, neighbour 0, neighbour 1, ...] as (desc, values) pairs."""
+    """[main workload, neighbour 0, neighbour 1, ...] as (desc, values, style) triples."""
     w = plan['workload']
-    return [(w['desc'], w['values'])] + [(n['desc'], n['values']) for n in plan.get('neighbours', [])]
+    return [(w['desc'], w['values'], w.get('style'))] + \
+        [(n['desc'], n['values'], n.get('style')) for n in plan.get('neighbours', [])]
 
 
 def _slot(task):
@@ -305,9 +334,9 @@ def _ekey(task, v):
 
 
 def _fresh_ctx(plan, task):
-    desc, values = _workloads(plan)[_slot(task)]
+    desc, values, style = _workloads(plan)[_slot(task)]
     only = (task['v'],) if task['t'] in ('encode', 'print', 'native') else ()
-    return Ctx(desc, values, only=only)
+    return Ctx(desc, values, only=only, style=style)
 
 
 # The process as it was before any codec call ran in it (captured at import, below).  restore() is the
@@ -541,7 +570,7 @@ def _encodings(plan):
     for slot, v, codec in sorted(need):
         try:
             _restart()
-            ctx = Ctx(wls[slot][0], wls[slot][1], only=(v,))
+            ctx = Ctx(wls[slot][0], wls[slot][1], only=(v,), style=wls[slot][2])
             enc, dec, opts = U.codec(codec)
             out['%d|%d|%s' % (slot, v, codec)] = enc.encode(ctx.values[v], **opts).hex()
         except Exception:
@@ -790,7 +819,7 @@ def execute(plan):
     r0 = dict(_RESTARTS)
     _restart()                      # every run starts in a "fresh process"
     try:
-        ctxs = [Ctx(d_, v_) for d_, v_ in _workloads(plan)]
+        ctxs = [Ctx(d_, v_, style=s_) for d_, v_, s_ in _workloads(plan)]
         ctx = ctxs[0]
         problem = U.schema_problem(ctx.schema)
     except Exception as e:
